@@ -405,7 +405,7 @@ func ruleC01CallTriple(c *Ctx, r *Rep) {
 	if cl := vm.ByOp["opcall"]; cl != nil {
 		ast.Inspect(cl.CC, func(m ast.Node) bool {
 			sw, ok := m.(*ast.SwitchStmt)
-			if !ok || sw.Tag == nil {
+			if !ok {
 				return true
 			}
 			// a switch over the native's name: any string-typed tag whose arms record a path
@@ -416,6 +416,31 @@ func ruleC01CallTriple(c *Ctx, r *Rep) {
 				}
 				return true
 			})
+			if sw.Tag == nil && recordsPath {
+				// tagless form: arms of the shape `name == "<native>" && …`
+				for _, s := range sw.Body.List {
+					for _, e := range s.(*ast.CaseClause).List {
+						ast.Inspect(e, func(q ast.Node) bool {
+							b, ok := q.(*ast.BinaryExpr)
+							if !ok || b.Op != token.EQL {
+								return true
+							}
+							for _, pr := range [][2]ast.Expr{{b.X, b.Y}, {b.Y, b.X}} {
+								if v, ok := constString(vm.info, pr[0]); ok {
+									if _, isc := constString(vm.info, pr[1]); !isc {
+										vmNames[v] = true
+									}
+								}
+							}
+							return true
+						})
+					}
+				}
+				return true
+			}
+			if sw.Tag == nil {
+				return true
+			}
 			if t := vm.info.TypeOf(sw.Tag); t != nil && typeStr(t) == "string" && recordsPath {
 				for _, s := range sw.Body.List {
 					for _, e := range s.(*ast.CaseClause).List {
@@ -428,7 +453,10 @@ func ruleC01CallTriple(c *Ctx, r *Rep) {
 			return true
 		})
 	}
-	ccNames := map[string]bool{}
+	// the value compileCall gives `indexing` per native name (explicit arms and the default arm)
+	ccIdx := map[string]int64{}
+	var ccDefault *int64
+	ccSeen := false
 	if fd := c.Decl(c.Gojq, "compiler.compileCall"); fd != nil {
 		ast.Inspect(fd.Body, func(m ast.Node) bool {
 			sw, ok := m.(*ast.SwitchStmt)
@@ -437,31 +465,47 @@ func ruleC01CallTriple(c *Ctx, r *Rep) {
 			}
 			for _, s := range sw.Body.List {
 				cc := s.(*ast.CaseClause)
-				nonneg := false
+				var val *int64
 				for _, st := range cc.Body {
 					if as, ok := st.(*ast.AssignStmt); ok && len(as.Rhs) == 1 {
-						if v, ok := constInt(info, as.Rhs[0]); ok && v >= 0 && c.Src(as.Lhs[0]) == "indexing" {
-							nonneg = true
+						if v, ok := constInt(info, as.Rhs[0]); ok && c.Src(as.Lhs[0]) == "indexing" {
+							v := v
+							val = &v
 						}
 					}
 				}
-				if nonneg {
-					for _, e := range cc.List {
-						if v, ok := constString(info, e); ok {
-							ccNames[v] = true
-						}
+				if val == nil {
+					continue
+				}
+				ccSeen = true
+				if cc.List == nil {
+					ccDefault = val
+				}
+				for _, e := range cc.List {
+					if v, ok := constString(info, e); ok {
+						ccIdx[v] = *val
 					}
 				}
 			}
 			return true
 		})
 	}
-	a, b := keysOf(vmNames), keysOf(ccNames)
-	if len(a) == 0 || len(b) == 0 {
-		r.Undecided("nameset", token.NoPos, "the name switch of the VM's opcall clause (%v) or of compileCall (%v) was not recognised", a, b)
+	a := keysOf(vmNames)
+	if len(a) == 0 || !ccSeen {
+		r.Undecided("nameset", token.NoPos, "the name switch of the VM's opcall clause (%v) or of compileCall (%v) was not recognised", a, ccIdx)
 		return
 	}
-	r.Check(len(a) >= 3 && strings.Join(a, ",") == strings.Join(b, ","), "nameset", token.NoPos, "natives the VM records paths for %v = natives compileCall brackets with opexpbegin/opexpend %v", a, b)
+	var bad []string
+	for _, nm := range a {
+		v, ok := ccIdx[nm]
+		if !ok && ccDefault != nil {
+			v, ok = *ccDefault, true
+		}
+		if !ok || v < 0 {
+			bad = append(bad, nm)
+		}
+	}
+	r.Check(len(a) >= 3 && len(bad) == 0, "nameset", token.NoPos, "every native the VM records a path for %v is compiled by compileCall with its key/path arguments bracketed by opexpbegin/opexpend (indexing >= 0); not so: %v", a, bad)
 }
 
 // ---- closers ----
